@@ -17,7 +17,35 @@ fn hash_of<T: Hash>(t: &T) -> u64 {
     h.finish()
 }
 
-fn typed_checks<A: AOps>(any: EntityAny) -> (bool, bool, bool, bool)
+/// `From<Entity<A>>` / `From<&Entity<A>>` for the Select* enums pick A's variant and keep the handle.
+pub trait SelOk: Archetype + Sized {
+    fn select_ok(e: Entity<Self>) -> bool;
+    fn select_direct_ok(d: EntityDirect<Self>) -> bool;
+}
+macro_rules! sel_ok {
+    ($A:ident) => {
+        impl SelOk for $A {
+            fn select_ok(e: Entity<$A>) -> bool {
+                let a = matches!(SelectEntity::from(e), SelectEntity::$A(x) if x == e);
+                let b = matches!(SelectEntity::from(&e), SelectEntity::$A(x) if x == e);
+                let c = matches!(SelectArchetype::from(e), SelectArchetype::$A) && SelectArchetype::from(e).archetype_id() == <$A as Archetype>::ARCHETYPE_ID;
+                a && b && c
+            }
+            fn select_direct_ok(d: EntityDirect<$A>) -> bool {
+                let a = matches!(SelectEntityDirect::from(d), SelectEntityDirect::$A(x) if x == d);
+                let b = matches!(SelectEntityDirect::from(&d), SelectEntityDirect::$A(x) if x == d);
+                let c = matches!(SelectArchetype::from(d), SelectArchetype::$A) && SelectArchetype::from(d).archetype_id() == <$A as Archetype>::ARCHETYPE_ID;
+                a && b && c
+            }
+        }
+    };
+}
+sel_ok!(Ap);
+sel_ok!(Aq);
+sel_ok!(Ar);
+sel_ok!(Aw);
+
+fn typed_checks<A: AOps + SelOk>(any: EntityAny) -> (bool, bool, bool, bool)
 where
     Entity<A>: TryFrom<EntityAny>,
 {
@@ -32,7 +60,7 @@ where
         let back2 = e.into_any();
         let r: &EntityAny = (&e).into();
         rt = back == any && back2 == any && *r == any && back.raw() == any.raw() && hash_of(&e) == hash_of(&any);
-        aid = e.archetype_id() == A::ARCHETYPE_ID && Entity::<A>::from_any(any) == e;
+        aid = e.archetype_id() == A::ARCHETYPE_ID && Entity::<A>::from_any(any) == e && A::select_ok(e);
     }
     (ok, panics, rt, aid)
 }
@@ -108,7 +136,8 @@ pub fn run(input: &str, out: &mut dyn Write) -> u64 {
                           guard(|| EntityDirect::<Ar>::from_any(da)).is_err(), guard(|| EntityDirect::<Aw>::from_any(da)).is_err()];
             let back = EntityDirect::<$A>::try_from(da).unwrap();
             let r: &EntityDirectAny = (&d).into();
-            let rt = back == d && back.into_any() == da && *r == da && hash_of(&d) == hash_of(&da) && d.into_any() == da;
+            let rt = back == d && back.into_any() == da && *r == da && hash_of(&d) == hash_of(&da) && d.into_any() == da
+                && <$A as SelOk>::select_direct_ok(d);
             let sel = match SelectEntityDirect::try_from(da) { Ok(s) => { let id = match s { SelectEntityDirect::Ap(_) => 0, SelectEntityDirect::Aq(_) => 1, SelectEntityDirect::Ar(_) => 2, SelectEntityDirect::Aw(_) => 3 }; id as i64 } Err(_) => -1 };
             let d2 = w.to_direct(e).unwrap();
             let eq = d2 == d && hash_of(&d2) == hash_of(&d);
